@@ -40,8 +40,19 @@ Definition checked_add_usize (a b : N) : option N := if a + b <=? USIZE_MAX then
 Definition findN (c : N) (s : str) : option N := option_map N.of_nat (find c s).
 Definition rfindN (c : N) (s : str) : option N := option_map N.of_nat (rfind c s).
 
-(* `s.split_at(i)`: panics when i > len (and when i is not a char boundary: not modelled, see DESIGN 13) *)
+(* `str::is_char_boundary(i)` (core): 0 and len are boundaries; otherwise the byte at i must not be a UTF-8 continuation byte
+   (0x80..=0xBF).  A purely byte-level test, exactly the one core performs. *)
+Definition is_char_boundary (s : str) (i : N) : bool :=
+  (i =? 0) || (i =? len s) ||
+  match nth_N s i with Some b => negb ((128 <=? b) && (b <=? 191)) | None => false end.
+
+(* `s.split_at(i)` on a `str`: panics when i > len AND when i is not a char boundary *)
 Definition str_split_at (s : str) (i : N) : outcome (str * str) :=
+  if (i <=? len s) && is_char_boundary s i then Ret (firstn (N.to_nat i) s, skipn (N.to_nat i) s) else Panic.
+
+(* `String::split_off(i)`: panics when i > len (its char-boundary panic is NOT modelled, like that of `&s[a..b]`, `String::insert`
+   and `String::remove`: DESIGN 13.12; the crate only ever calls these at positions it computed from `find` / `rfind`) *)
+Definition str_split_off (s : str) (i : N) : outcome (str * str) :=
   if i <=? len s then Ret (firstn (N.to_nat i) s, skipn (N.to_nat i) s) else Panic.
 
 (* `Pointer::tokens()`: `self.0.split('/')` with the first (empty) piece skipped; items are modelled by their
